@@ -37,7 +37,7 @@ RULE = ("Probe: grids 1-64 odd/even/rectangular, anisotropic extent 3-30 A, ener
         ">=2 positions, plane wave with >=2 pixels; distinct = distinct case signature")
 CLAUSES = ["probe-unit-intensity", "planewave-normalized", "planewave-unit-modulus", "ensemble-shape", "pipeline-incident-wave"]
 QUICK = dict(n=700, time=30)
-THOROUGH = dict(n=16000, time=330, shards=16)
+THOROUGH = dict(n=119400, time=480, shards=16)
 
 TOL = {"float32": 1e-5, "float64": 2e-12}
 POLAR = {"C10": 1, "C12": 1, "C21": 2, "C23": 2, "C30": 3, "C32": 3, "C34": 3, "C41": 4, "C43": 4, "C45": 4,
